@@ -58,6 +58,12 @@ var _ = late(func() {
 			Run:    ruleReplicateUntilClosed})
 
 	// ---- C18 / C20 ------------------------------------------------------------------------------------------------------
+	properties["C18"].Rules = append(properties["C18"].Rules, &Rule{ID: "C18.ctx-arm-returns-err", Floor: 2,
+		Clause: "in xsync every return inside the <-ctx.Done() arm of a select (ContextCond.Wait, Future.WaitContext) yields ctx.Err() evaluated in that arm: a nil or stale error reports a wait that never completed as a success",
+		Run:    func(c *Ctx, r *R) { ruleCtxArmReturnsErr(c, r, "xsync") }})
+	properties["C10"].Rules = append(properties["C10"].Rules, &Rule{ID: "C10.ctx-arm-returns-err", Floor: 4,
+		Clause: "in stream and chans every return inside the <-ctx.Done() arm of a select yields ctx.Err() evaluated in that arm (Send / Next report the expiry of their own context, not success and not another error)",
+		Run:    func(c *Ctx, r *R) { ruleCtxArmReturnsErr(c, r, "stream", "chans") }})
 	properties["C18"].Rules = append(properties["C18"].Rules, &Rule{ID: "C18.ctx-interruptible", Floor: 1,
 		Clause: "every function of xsync that takes a context can be interrupted by it wherever it blocks: blocking channel operations are selects with a ctx.Done() arm, and it calls neither time.Sleep nor a context-less blocking helper (f.Wait() inside WaitContext)",
 		Run:    func(c *Ctx, r *R) { ruleCtxArmIn(c, r, "xsync") }})
@@ -866,3 +872,56 @@ var _ = late(func() {
 			}
 		}})
 })
+
+// ruleCtxArmReturnsErr: wherever a function of the given packages leaves through the <-ctx.Done() arm of a select with an
+// error result, that result is ctx.Err() evaluated inside the arm - never nil, a stale variable, or another error: a caller
+// told "nil" believes the wait succeeded (Future.WaitContext would hand out a value that was never filled in).
+func ruleCtxArmReturnsErr(c *Ctx, r *R, rels ...string) {
+	for _, rel := range rels {
+		fns := c.funcsOfPkg(rel)
+		sort.Slice(fns, func(i, j int) bool { return fns[i].Pos() < fns[j].Pos() })
+		for _, fn := range fns {
+			if fn.Blocks == nil || !lastIsError(fn.Signature) {
+				continue
+			}
+			name := c.nameOf(fn)
+			n := 0
+			for _, op := range chanOpsOf(fn) {
+				if op.kind != "select" {
+					continue
+				}
+				for _, a := range op.arms {
+					if a.send || a.kind != "ctx-done" || a.body == nil {
+						continue
+					}
+					for _, b := range fn.Blocks {
+						if b != a.body && !a.body.Dominates(b) {
+							continue
+						}
+						ret, ok := b.Instrs[len(b.Instrs)-1].(*ssa.Return)
+						if !ok || len(ret.Results) == 0 {
+							continue
+						}
+						n++
+						ev := returnedValue(ret, len(ret.Results)-1)
+						good := isCtxErrAfterDone(ev)
+						// a wrapped ctx.Err() (fmt.Errorf("…: %w", ctx.Err())) still reports the context's end
+						if !good {
+							if call, ok := ev.(*ssa.Call); ok && !call.Call.IsInvoke() {
+								for _, arg := range call.Call.Args {
+									if sl, ok := arg.(*ssa.Slice); ok {
+										_ = sl
+									}
+									if isCtxErrAfterDone(arg) {
+										good = true
+									}
+								}
+							}
+						}
+						r.ok(good, name+"|ctx-arm-return#"+itoa(n), retPos(ret), "the <-ctx.Done() arm must return ctx.Err() (read inside the arm): any other value - nil, an error variable assigned earlier - tells the caller the wait succeeded or hides why it ended")
+					}
+				}
+			}
+		}
+	}
+}
